@@ -5,6 +5,8 @@ CONSTANTS Variant = "ok"
  MCTs = {2, 3}
  MCVs = {1}
  PolyMode = "few"
+ MaxRedel = 0
  OrderMode = "free"
-INVARIANTS TypeOK NoFailure ThresholdIsT Agreement KeyedByShareIdx OwnShareMatches GroupKeyIsSum AnyTRecover AnyTSign BelowThresholdSafe
+INVARIANTS TypeOK CountsDistinct NoFailure ThresholdIsT Agreement KeyedByShareIdx OwnShareMatches GroupKeyIsSum AnyTRecover AnyTSign BelowThresholdSafe
+PROPERTIES RedeliveryNoEffect BarrierComplete
 CHECK_DEADLOCK TRUE
